@@ -65,7 +65,7 @@ PLANS = {
     },
     "C05": {
         "quick": [ex("emit4", "emit", 4, 3), ex("rcvE", "rcvE", 1, 4, alphabet=["a", "b", "!"], modes=["E"]), ex("rcv3", "rcv", 3, 3, modes=["E"]),
-                  ex("progT", "progT", 1, 3, alphabet=["a", "b", "!"], modes=["E"]), ex("emit3e", "emit", 3, 3, etys=["empty", "simple"], modes=["E"]),
+                  ex("progT", "progT", 1, 3, alphabet=["a", "b", "!"], modes=["E"]), ex("nst2", "nst", 2, 4, alphabet=["a", "(", ")"], kinds=["tree", "treem"], modes=["E"]), ex("emit3e", "emit", 3, 3, etys=["empty", "simple"], modes=["E"]),
                   rec("emitR", "emit", 3000, 8, 8), rec("rcvR", "rcv", 1500, 8, 8, etys=ALL_ETYS)],
         "thorough": [ex("emit4", "emit", 4, 4), ex("rcvE", "rcvE", 1, 6, alphabet=["a", "b", "!"]), ex("rcv3", "rcv", 3, 4), ex("rcvT", "rcvT", 1, 5, alphabet=["a", "b", "!"]),
                      rec("emitR", "emit", 40000, 10, 10), rec("rcvR", "rcv", 30000, 10, 10)],
@@ -119,6 +119,7 @@ PLANS = {
                   ex("gapTk", "gapT", 1, 3, kinds=["mapped", "mstream", "wctx", "io"], modes=["E"]),
                   ex("spni3", "spni", 3, 3, kinds=["iter"], modes=["E"]), ex("gapTi", "gapTi", 1, 3, kinds=["iter"], modes=["E"]),
                   ex("progTk", "progT", 1, 3, kinds=["stream", "io", "mstream", "wctx", "array"], modes=["E"]),
+                  ex("spnr2k", "spnr", 2, 3, kinds=["mapped", "slice", "array"], modes=["E"]),
                   {"kind": "inputs", "name": "kinds", "ops": 4},
                   rec("longS", "seek", 24, 7, 1100, minlen=500, kinds=["stream", "bstream", "mstream"]),
                   rec("pegRk", "peg", 2500, 8, 8, kinds=ALL_KINDS), rec("spngRk", "spng", 1500, 8, 8, kinds=["mapped", "mstream", "stream", "wctx", "mapspan", "io"])],
@@ -179,7 +180,7 @@ PLANS = {
                      {"kind": "regex", "name": "regex", "len": 5}],
     },
     "C15": {
-        "quick": [ex("ctx3", "ctx", 3, 3), rec("ctxR", "ctx", 1500, 8, 8)],
+        "quick": [ex("ctx3", "ctx", 3, 3), ex("cfgT", "cfgT", 1, 3), rec("ctxR", "ctx", 1500, 8, 8)],
         "thorough": [ex("ctx3", "ctx", 3, 4), rec("ctxR", "ctx", 30000, 10, 10)],
     },
     "C16": {
@@ -213,6 +214,7 @@ PLANS = {
     "C20": {
         "quick": [ex("peg2", "peg", 2, 3, etys=["rich", "empty"]), ex("err2", "err", 2, 3, etys=ALL_ETYS),
                   ex("lbl2", "lbl", 2, 3, etys=["empty", "cheap"]), ex("rcv2", "rcv", 2, 3, etys=["empty", "simple"]), ex("memo2", "memo", 2, 3, etys=["empty"]),
+                  ex("cfgT", "cfgT", 1, 3, modes=["E"]), ex("lrec", "lrec", 1, 4, alphabet=["a", "+"], invariants=NO_DEN),
                   rec("pegR", "peg", 1500, 8, 8, etys=ALL_ETYS), rec("lblR", "lbl", 1000, 8, 8, etys=ALL_ETYS), rec("rcvR", "rcv", 1000, 8, 8, etys=ALL_ETYS),
                   rec("memoR", "memo", 1000, 8, 8, etys=ALL_ETYS),
                   deep("deep", ["prefix", "infixr", "infixl", "postfix", "repeat", "paren"], [3000, 60000])],
